@@ -125,7 +125,12 @@ def gen_qop(rng, ids, depth, st, kinds, nested):
     if k == "lazy":
         return {"op": "lazy", "item": gen_item(rng, ids, depth, st, kinds)}
     if k == "idle":
-        return {"op": "idle", "item": gen_item(rng, ids, depth, st, kinds)}
+        it = gen_item(rng, ids, depth, st, kinds)
+        if rng.random() < 0.12 and not nested:
+            # an idle callback that runs the queues itself (re-entrant run)
+            st["rerun"] = st.get("rerun", 0) + 1
+            it["ops"].append({"op": "rerun", "dt": rng.choice([[0, 0], [0, 1], [2, 0], [61, 0]]), "idle": rng.random() < 0.3})
+        return {"op": "idle", "item": it}
     if k == "after":
         d = small_delta(rng)
         if d[0] > 100:
@@ -187,6 +192,17 @@ def gen_queue_case(rng, name, props, big=False):
         now = t
         tmaxi = tmax(tmaxi, t)
         ops.append({"op": "run", "t": t, "idle": rng.random() < 0.4})
+        # re-entrant runs inside idle items advance beyond the enclosing run's instant
+        def fix(o):
+            nonlocal tmaxi
+            for x in o:
+                if x.get("op") == "rerun" and "t" not in x:
+                    x["t"] = tadd(tmax(tmaxi, t), x.pop("dt"))
+                    tmaxi = tmax(tmaxi, x["t"])
+                if "item" in x:
+                    fix(x["item"].get("ops", []))
+                    fix(x["item"].get("ondrop", []))
+        fix(ops)
         if rng.random() < 0.3:
             ops.append({"op": "startinst"})
     if rng.random() < 0.5:
